@@ -15,11 +15,11 @@ var rules = map[string]string{
 	"C11": "Cases: all sequences of the 10 member kinds {SR, RR, SDES+CNAME, SDES-noCNAME, SDES-empty, BYE, FB, APP, XR, RAW} of length 0..L (quick 4, thorough 6), members drawn per sequence (CNAME at a drawn chunk/item position), two fault arms on every accepted sequence; plus generated sequences of length L+1..40. Every enumerated sequence is distinct and counted as non-trivial; long ones are distinct by hash.",
 	"C12": "Cases: sequence-number lists built from clusters with gaps {0,1,2,3,15,16,17,18,32,33}, bases near 0 / 65535, reversed or shuffled; all 2- and 3-element lists near 0 and the wrap; (PacketID, bitmap) pairs (quick 66 x 2^16, thorough all 2^32); early-stop positions 0..17. Non-trivial list: contains a gap of 16 or 17, a duplicate or a descending step (incl. the wrap); enumerated pairs are distinct by construction.",
 	"C13": "Cases: (A) TWCC-targeted byte strings (valid encodings, shifted status counts, random chunk words followed by exactly the delta octets they call for +-, replaced chunk words, status-counter-wrap recipe, declared length one word short, surplus octets); non-trivial: accepted and (>= 2 chunk kinds or a last chunk that overshoots/clips the status count). (B) status sequences x two independent chunkings; non-trivial: the chunkings differ and the sequence has both received and lost packets; exhaustive: all 3^n sequences (n <= 5 quick, 6 thorough) x all their chunkings.",
-	"C14": "Cases: all 2^24 (exponent, mantissa) wire pairs; non-negative finite float32 bitrates in bit-pattern order (quick: stride 509 plus dense windows of +-64 ulps around every power of two, every 0x3FFFF*2^e and the saturation point; thorough: all 2^31-2^23); SSRC list lengths 0..260, 511, 512; special values. Every enumerated value is distinct by construction.",
+	"C14": "Cases: all 2^24 (exponent, mantissa) wire pairs; non-negative finite float32 bitrates in bit-pattern order (quick: stride 509 plus dense windows of +-64 ulps around every power of two, every 0x3FFFF*2^e and the saturation point; thorough: all 2^31-2^23); SSRC list lengths 0..260, 511, 512 on the encode side; on the wire side every count octet 0..255 against ~19 entry counts (equal, off by one, congruent modulo 256, largest frame); special values. Every enumerated value is distinct by construction.",
 	"C15": "Cases: XR packets with 0..8 (thorough 40) blocks over the 7 defined kinds and unknown kinds (BT 0, 8..255) with boundary-biased fields and list lengths; all 8^2+8^3 ordered pairs and triples of kinds with drawn fields. Non-trivial: >= 2 blocks of different kinds with a variable-length block not in last position. Distinct by FNV-1a of the JSON form.",
 	"C16": "Cases: the complete finite domain of each unit (chunk words, deltas, 24-bit loss, metric words, XR chunks: exhaustive in both tiers; header fields/words, NACK pairs, SLI words: strided by an odd multiplier (a bijection on the domain) plus bit-boundary sets in quick, exhaustive in thorough; FIR entries sampled). Every enumerated value is distinct by construction.",
 	"C17": "Cases: packets returned by rtcp.Unmarshal over generated inputs (<= 6 KiB); constructed values of every type with planted extreme bitrates (1e21.., MaxFloat32, Inf, NaN) and out-of-range enum values; REMB decoded from every exponent x strided (thorough: every) mantissa; all 256 values of 7 enum types and all 2^16 Chunk/PacketBitmap/Header values. Non-trivial: accepted input / non-empty list, out-of-range enum, planted bitrate.",
-	"C18": "Cases: (A) histories of 1..60 operations {Marshal, MarshalSize, DestinationSSRC, String, Header/Len, Validate/CNAME, Unmarshal direct/datagram} over a pool of built and decoded packets and input buffers (plain build); non-trivial: >= 3 distinct operations and >= 2 packets. (B) scripts for 4/16/32 goroutines (GOMAXPROCS 2/16) mixing own and shared packets and shared input buffers, run in the -race build and compared with a sequential run; distinct by hash of the operation lists.",
+	"C18": "Cases: (A) histories of 1..60 operations {Marshal, MarshalSize, DestinationSSRC, String, Header/Len, Validate/CNAME, Unmarshal direct/datagram} over a pool of built and decoded packets and input buffers (plain build); non-trivial: >= 3 distinct operations and >= 2 packets. (B) scripts for 4/16/32 goroutines (GOMAXPROCS 2/16) mixing own and shared packets and shared input buffers, run in the -race build (concurrently first, on cold package state; the first script of each process touches every packet kind with every operation from 8 goroutines) and compared with a sequential run; distinct by hash of the operation lists.",
 }
 
 var commonAssumptions = []string{
